@@ -134,6 +134,14 @@ def _init():
     K("Lambda.kwonly-default", "Lambda.kwonly", "Lambda", ["x"], lambda c: ast.Lambda(args(kwonly=["k"], kw_defaults=[c[0]]), nm("k")))
     K("Lambda.vararg-kwonly", "Lambda.kwonly", "Lambda", ["x"],
       lambda c: ast.Lambda(args(vararg="a", kwonly=["k"], kw_defaults=[c[0]]), tup("a", "k")))
+    K("Lambda.kwonly-default-first", "Lambda.kwonly", "Lambda", ["x"],
+      lambda c: ast.Lambda(args(kwonly=["g", "h"], kw_defaults=[c[0], None]), tup("g", "h")))
+    K("Lambda.kwonly-default-last", "Lambda.kwonly", "Lambda", ["x"],
+      lambda c: ast.Lambda(args(kwonly=["g", "h"], kw_defaults=[None, c[0]]), tup("g", "h")))
+    K("Lambda.kwonly-default-outer", "Lambda.kwonly", "Lambda", ["x", "y"],
+      lambda c: ast.Lambda(args(kwonly=["g", "h", "k"], kw_defaults=[c[0], None, c[1]]), tup("g", "h", "k")))
+    K("Lambda.kwonly-default-middle", "Lambda.kwonly", "Lambda", ["x"],
+      lambda c: ast.Lambda(args(pos=["a", "b"], defaults=[co(1)], kwonly=["g", "h", "k"], kw_defaults=[None, c[0], None]), tup("a", "b", "g", "h", "k")))
     K("Lambda.all", "Lambda.kwonly", "Lambda", ["x", "y"],
       lambda c: ast.Lambda(
           args(posonly=["a"], pos=["b", "c"], vararg="e", kwonly=["g", "h"], kw_defaults=[None, c[1]], kwarg="kw", defaults=[c[0]]),
